@@ -27,10 +27,12 @@ pub static C18: C18Prop = C18Prop;
 /// Hand-shaped growth recursion, so that class (c) does not depend on the random generator.
 fn growth_program(src: &mut Src) -> (Vec<Instruction>, Vec<Instruction>) {
     let t = || Expression::Variable("t".into());
-    let grown = match src.below(3) {
+    let grown = match src.below(4) {
         0 => gx::infix(t(), InfixOperator::Plus, gx::num(1.0, 0.0)),
         1 => gx::infix(gx::num(2.0, 0.0), InfixOperator::Star, t()),
-        _ => gx::call(quil_rs::expression::ExpressionFunction::Sine, t()),
+        2 => gx::call(quil_rs::expression::ExpressionFunction::Sine, t()),
+        // doubles the (nominal) size of the parameter at every level
+        _ => gx::infix(t(), InfixOperator::Star, t()),
     };
     let via_second = src.chance(1, 2);
     let q = Qubit::Variable("q".into());
@@ -51,7 +53,23 @@ fn growth_program(src: &mut Src) -> (Vec<Instruction>, Vec<Instruction>) {
             instructions: vec![gate("RX", grown, q.clone())],
         }));
     }
-    let body = vec![gate("RX", gx::num(src.below(3) as f64, 0.0), Qubit::Fixed(0))];
+    // the argument is a constant (the library folds the grown parameter at every level) or a memory
+    // reference (nothing can be folded: the parameter really grows)
+    let argument = match src.below(5) {
+        n @ 0..=2 => gx::num(n as f64, 0.0),
+        _ => {
+            defs.insert(
+                0,
+                Instruction::Declaration(quil_rs::instruction::Declaration::new(
+                    "th".into(),
+                    quil_rs::instruction::Vector::new(quil_rs::instruction::ScalarType::Real, 1),
+                    None,
+                )),
+            );
+            Expression::Address(quil_rs::instruction::MemoryReference::new("th".into(), 0))
+        }
+    };
+    let body = vec![gate("RX", argument, Qubit::Fixed(0))];
     (defs, body)
 }
 
@@ -60,7 +78,7 @@ impl Property for C18Prop {
         "C18"
     }
     fn rule(&self) -> &'static str {
-        "the C17 program generator with growth enabled (calibration bodies may invoke RX(%t+1), RX(%t*2), ...), plus hand-shaped self- and mutually-recursive growth programs (1 case in 8). Each program is classified by the model expander as finite / recursive / unbounded and the library's result is compared accordingly, inside a child process. Non-trivial = the model classifies the program as recursive or unbounded; distinct by program text."
+        "the C17 program generator with growth enabled (calibration bodies may invoke RX(%t+1), RX(%t*2), RX(%t*%t), ...), plus hand-shaped self- and mutually-recursive growth programs (1 case in 8). Each program is classified by the model expander as finite / recursive / unbounded and the library's result is compared accordingly, inside a child process. Non-trivial = the model classifies the program as recursive or unbounded; distinct by program text."
     }
     fn max_words(&self) -> usize {
         700
@@ -69,7 +87,9 @@ impl Property for C18Prop {
         tier.pick(40_000, 800_000)
     }
     fn watchdog_s(&self) -> u64 {
-        20
+        // the deepest legal expansion (256 nested levels, quadratic bookkeeping) takes a few seconds
+        // on an idle machine; leave room for a loaded one
+        60
     }
     fn run(&self, src: &mut Src, ctx: &Ctx, out: &mut Outcome) -> Check {
         let (defs, body) = if src.chance(1, 8) {
